@@ -83,9 +83,12 @@ func VerifHarness_C18_cookie() {
 //verif:harness props=C18 paths=200 reach=done
 func VerifHarness_C18_secret() {
 	cfg := &Config{Rand: verifRandLog{}}
-	configured := verifSplitInt("configured", 0, 1) == 1
+	how := verifSplitInt("configured", 0, 2) // 0: nil, 1: a secret, 2: an empty non-nil slice (= no secret configured)
+	configured := how == 1
 	if configured {
 		cfg.CookieSecret = verifNondetBytes("cfgSecret", 3)
+	} else if how == 2 {
+		cfg.CookieSecret = make([]byte, 0)
 	}
 	c := verifBareConn(cfg, false)
 	s1 := c.effectiveCookieSecret()
